@@ -14,7 +14,8 @@ func usage() {
 	fmt.Fprint(os.Stderr, `usage:
   lrref sweep  -gocc <gocc binary> [-scope quick|thorough] [-seed n] [-shard i/n] [-out result.json] [-only caseid] [-j workers] [-list]
   lrref tables [-repo /repo] [-out result.json]
-  lrref show   <grammar file with a syntax part in lrref's own restricted form>   (prints the reference automaton)
+  lrref check  -gocc <gocc binary> [-a] [-lang] <file.bnf>     (sweep checks for one hand-written grammar, JSON on stdout)
+  lrref show   '<syntax part>' | <file>                       (prints the reference automaton)
 `)
 }
 
@@ -28,6 +29,8 @@ func main() {
 		os.Exit(sweepMain(os.Args[2:]))
 	case "tables":
 		os.Exit(tablesMain(os.Args[2:]))
+	case "check":
+		os.Exit(checkMain(os.Args[2:]))
 	case "show":
 		os.Exit(showMain(os.Args[2:]))
 	default:
